@@ -2,6 +2,7 @@ mod canister;
 mod ledger;
 mod out;
 mod rng;
+mod sync;
 mod wd;
 mod world;
 
@@ -44,11 +45,13 @@ fn main() {
             other => { eprintln!("unknown arg {}", other); std::process::exit(2); }
         }
     }
+    canister::install_panic_hook();
     let mut out = out::Out::new(&dir);
     let ctx = Ctx { seed, cases, thorough, shard, shards, only_case };
     match stream.as_str() {
         "wd" => wd::run(&mut out, &ctx),
         "ledger" => ledger::run(&mut out, &ctx),
+        "sync" => sync::run(&mut out, &ctx),
         other => { eprintln!("unknown stream {}", other); std::process::exit(2); }
     }
     out.finish(&[("seed", seed.to_string()), ("stream", out::json_str(&stream))]);
